@@ -76,15 +76,23 @@ def _run_cached(path, c, cm):
     from . import probes as P
     spec, variant = cm["spec"], cm["variant"]
     if variant == "sampled":        # the cheaper variants are applied to a deterministic sample
-        variant = ("offmut", "buildoff", "on")[P.h(path, c) % 3]
+        variant = ("offmut", "buildoff", "on", "off2")[P.h(path, c) % 4]
+    if variant == "off2" and not path:
+        variant = "offmut"
     Vertex.NEIGHBOR_CACHING = variant != "buildoff"
     w = W.World(_G["consts"], _G["init"], _G["vcls"])
-    for pc in path:
+    # "off2": the flag is off during the LAST TWO calls (an end taken off a link and another put on: in between the
+    # staying end cannot even be asked), everything before is warm
+    head = path[:-1] if variant == "off2" else path
+    for pc in head:
         w.apply(pc)
         if variant != "buildoff":
             P.run(w, w.project(), spec)              # warm after every step
     Vertex.NEIGHBOR_CACHING = True
-    P.run(w, w.project(), spec)                      # warm in the state the call is made in
+    P.run(w, w.project(), spec)                      # warm in the state the call(s) are made in
+    if variant == "off2":
+        Vertex.NEIGHBOR_CACHING = False
+        w.apply(path[-1])
     pre = w.project()
     if variant == "offmut":
         Vertex.NEIGHBOR_CACHING = False
